@@ -255,7 +255,10 @@ func main() {
 			}
 		}
 		if !okAll {
-			run.Fatal("control run of %s is not answered with success throughout: %+v", control[i].Conv, r)
+			// a well-formed, legal conversation is refused: not what this property is about, but certainly not
+			// "the server survives and keeps serving" either - reported, and the deviations of this run are skipped
+			run.Eval(1)
+			run.Violation(control[i].Conv+"/none/legal-conversation-not-served", map[string]any{"case": control[i], "msg": fmt.Sprintf("the undeviated conversation is not answered with success throughout: statuses %v, closed at step %d", r.Statuses, r.ClosedAt), "events": r.Events})
 		}
 	}
 	if run.Violations() > 0 {
